@@ -85,7 +85,7 @@ def run(chk: framework.Check):
     drv = lean.Driver()
     n_worlds = 600 if chk.tier == "quick" else 6000
     corr_fail = []
-    for G, S, w in streams.worlds(chk, drv, n_worlds, no_any=True, unions=True, nt=True):
+    for G, S, w in streams.worlds(chk, drv, n_worlds, no_any=True, unions=True, nt=True, enum_lits=True):
         for ty, x, xv in streams.typed_values(chk, G, S, w, n_types=5, n_values=2):
             unions = gen.reach_unions(w, ty)
             # a union the generator did not build to be distinguishable may be refused (hook creation or structuring
@@ -111,6 +111,11 @@ def run(chk: framework.Check):
                           sample={"cfg": name, "type": terms.ty_sx(ty), "value": terms.canon_sx(x), "result": ri[0]})
                 chk.note("pair:" + ("same" if cu == cs else "cross"), "cfg:" + cfg_name(cu),
                          "ty:" + (ty if isinstance(ty, str) else ty[0]))
+                if gen.has_enum_lit(w, ty):
+                    # (`litOK`, the scope condition of the theorems for such literals, is part of `unionsOK`)
+                    chk.note("literal-with-enum-members-reachable:" + ri[0],
+                             "enum-literal-hyp(unionsOK incl. litOK, refusal-reachable, noUnion):"
+                             + drv.ask("USCOPE %d %s" % (1 if cu["tuple"] else 0, terms.ty_sx(ty))))
                 if nts:
                     chk.note("nt-reachable:unstructured-by-" + ("Converter" if cu["gen"] else "BaseConverter"))
                 for t in gen.walk_types(ty):
@@ -151,6 +156,8 @@ def run(chk: framework.Check):
     # implementation-only extended stream (unions, NamedTuples, registry hooks, one-shot iterables)
     from harness import ext
     ext.run_c01(chk, 150 if chk.tier == "quick" else 1500)
+    # implementation-only: Literal[...] over members of mix-in enums, position-wise equal literals in one process
+    ext.run_enum_literals(chk, 25 if chk.tier == "quick" else 250, "C01")
     drv.close()
 
 
@@ -191,9 +198,34 @@ def probe_f52(chk):
             chk.note("F52-probe:reproduced-but-no-known_findings-entry")
 
 
+def replay_enum_literal_witness(chk, drv):
+    """theorem C01_enum_literal_collision_witness on the real code: `Literal[E.M0, 1]` with `E.M0.value == 1` -- both
+    arguments have the key 1 in `_structure_enum_literal`'s dict, the later one wins, the member comes back as 1.
+    The scope condition `litOK` of the round-trip theorems excludes exactly such literals (the generator keeps the keys
+    of a literal's arguments pairwise different)."""
+    w = {"classes": [], "enums": [[("i", 1), ("s", "x")]]}
+    S = Session(drv, w)
+    ty, x = ("lit", [("e", 0, 0), ("i", 1)]), ("e", 0, 0)
+    for cfg in ALL_CFGS:
+        xv, x2 = S.realise(x)
+        ri = composite_impl(S, cfg, cfg, ty, x2, xv)
+        rm = composite_model(S, cfg, cfg, ty, x2)
+        chk.count("enum-literal-collision-witness" + cfg_name(cfg), nontrivial=True)
+        if ri == ("ok", "(i 1)") and rm == ("ok", "(i 1)"):
+            chk.note("witness:enum-literal-collision-reproduced")
+        elif ri[:1] == ("ok",) and ri[1] == terms.canon_sx(x2):
+            chk.note("witness:enum-literal-collision-STALE")
+            print("NOTE C01: the enum-literal collision witness no longer reproduces (the member round-trips): "
+                  "the scope condition `litOK` may have become unnecessary")
+        else:
+            chk.violation(f"correspondence corr:C01:ROUNDTRIP broken on the enum-literal collision witness: impl={ri} model={rm} "
+                          f"[{cfg_name(cfg)}]", {"world": w, "cu": cfg, "cs": cfg, "ty": ty, "x": x2}, found_input=False)
+
+
 def known_finding_probes(chk, drv):
     """Reproduce each recorded finding on the real code (a stale entry would show as 0 reproductions)."""
     probe_f52(chk)
+    replay_enum_literal_witness(chk, drv)
     # F10: Converter, set[tuple[int, ...]]
     w = {"classes": [], "enums": []}
     S = Session(drv, w)
